@@ -135,6 +135,9 @@ type (
 		updatedStreamsDuringTaggingJob bitmask.LongBitmask
 		resetStreamsDuringTaggingJob   bitmask.LongBitmask
 		addedStreamsDuringTaggingJob   bitmask.LongBitmask
+		// streams that got new data while a converter job was running: the job
+		// reads them from the index files it was started with
+		updatedStreamsDuringConverterJob bitmask.LongBitmask
 
 		streamsToConvert         map[string]*bitmask.LongBitmask
 		pcapProcessorWebhookUrls []string
@@ -660,6 +663,9 @@ func (mgr *Manager) importPcapJob(filenames []string, nextStreamID uint64, exist
 			mgr.addedStreamsDuringTaggingJob.Or(*addedStreams)
 			mgr.invalidateTags(*updatedStreams, *resetStreams, *addedStreams)
 			mgr.invalidateConverters(updatedStreams)
+			if mgr.converterJobRunning {
+				mgr.updatedStreamsDuringConverterJob.Or(*updatedStreams)
+			}
 		}
 		// remove finished job from queue
 		mgr.importJobs = mgr.importJobs[processedFiles:]
@@ -1605,6 +1611,12 @@ func (mgr *Manager) convertStreamJob(allConverters []*converters.CachedConverter
 
 	mgr.jobs <- func() {
 		mgr.converterJobRunning = false
+		// output the job stored for a stream that an import extended meanwhile is
+		// the output for its old data: drop it and convert the stream again
+		if !mgr.updatedStreamsDuringConverterJob.IsZero() {
+			mgr.invalidateConverters(&mgr.updatedStreamsDuringConverterJob)
+			mgr.updatedStreamsDuringConverterJob = bitmask.LongBitmask{}
+		}
 
 		for i, converter := range allConverters {
 			// The converter was removed while we were running.
